@@ -19,6 +19,7 @@ import (
 	"log"
 	"os"
 	"strings"
+	"sync"
 	"sync/atomic"
 
 	NoKV "github.com/feichai0017/NoKV"
@@ -44,6 +45,7 @@ type Op struct {
 }
 
 type Workload struct {
+	Par  bool     `json:"par"` // plain mode: the writes of one operation are issued concurrently (coalesced batch)
 	ID   int      `json:"id"`
 	Cfg  eng.Cfg  `json:"cfg"`
 	Mode string   `json:"mode"` // plain | txn
@@ -52,6 +54,7 @@ type Workload struct {
 }
 
 var (
+	listPoints bool
 	points  int64
 	crashAt int64
 	traceF  *os.File
@@ -66,7 +69,11 @@ func curWal() string {
 	return ""
 }
 
+var emitMu sync.Mutex
+
 func emit(v map[string]any) {
+	emitMu.Lock()
+	defer emitMu.Unlock()
 	b, _ := json.Marshal(v)
 	b = append(b, '\n')
 	if _, err := traceF.Write(b); err != nil {
@@ -76,6 +83,9 @@ func emit(v map[string]any) {
 
 func point(name string) {
 	n := atomic.AddInt64(&points, 1)
+	if crashAt == 0 && listPoints {
+		emit(map[string]any{"e": "P", "n": n, "at": name})
+	}
 	if crashAt > 0 && n == crashAt {
 		emit(map[string]any{"e": "Crash", "point": n, "at": name, "wal": curWal(), "rot": atomic.LoadInt64(&rots)})
 		os.Exit(77)
@@ -174,6 +184,31 @@ func work(dir, wl, trace string) {
 	for i, op := range w.Ops {
 		switch op.Op {
 		case "Write":
+			if w.Par && w.Mode != "txn" && len(op.Writes) > 1 {
+				// independent single-key writes issued at the same time: one coalesced commit batch
+				errs := make([]error, len(op.Writes))
+				var wg sync.WaitGroup
+				start := make(chan struct{})
+				for j, x := range op.Writes {
+					emit(map[string]any{"e": "Accept", "i": i, "j": j, "w": []W{x}, "wal": curWal(), "rot": atomic.LoadInt64(&rots)})
+					wg.Add(1)
+					go func(j int, x W) {
+						defer wg.Done()
+						<-start
+						errs[j] = write(db, w, Op{Op: "Write", Writes: []W{x}, Len: op.Len})
+					}(j, x)
+				}
+				close(start)
+				wg.Wait()
+				for j := range op.Writes {
+					es := ""
+					if errs[j] != nil {
+						es = errs[j].Error()
+					}
+					emit(map[string]any{"e": "Ack", "i": i, "j": j, "ok": errs[j] == nil, "err": es, "wal": curWal(), "rot": atomic.LoadInt64(&rots)})
+				}
+				break
+			}
 			emit(map[string]any{"e": "Accept", "i": i, "w": op.Writes, "wal": curWal(), "rot": atomic.LoadInt64(&rots)})
 			err := write(db, w, op)
 			es := ""
@@ -316,6 +351,7 @@ func main() {
 	trace := fset.String("trace", "", "")
 	outp := fset.String("out", "", "")
 	at := fset.Int64("crashat", 0, "")
+	fset.BoolVar(&listPoints, "list", false, "with -crashat 0: log every crash point")
 	_ = fset.Parse(os.Args[2:])
 	crashAt = *at
 	switch os.Args[1] {
